@@ -139,6 +139,10 @@ func main() {
 		os.Exit(cmdCheck(os.Args[2:]))
 	case "replay":
 		os.Exit(cmdReplay(os.Args[2:]))
+	case "genc12":
+		os.Exit(cmdGenC12(os.Args[2:]))
+	case "genkv":
+		os.Exit(cmdGenKV(os.Args[2:]))
 	default:
 		fmt.Fprintln(os.Stderr, "unknown command")
 		os.Exit(2)
@@ -258,7 +262,16 @@ func cmdCheck(args []string) int {
 			}
 		}
 	}
-	if len(targets) == 0 && len(lemmas) == 0 {
+	var luas []*LuaContract
+	for _, lc := range db.Luas {
+		for _, p := range lc.Props {
+			if p == *prop && *only == "" {
+				luas = append(luas, lc)
+				pkgSet[lc.Pkg] = true
+			}
+		}
+	}
+	if len(targets) == 0 && len(lemmas) == 0 && len(luas) == 0 {
 		return engineFailure(*prop, outDir, "no function or lemma under contract carries property "+*prop)
 	}
 	var patterns []string
@@ -323,6 +336,20 @@ func cmdCheck(args []string) int {
 			continue
 		}
 		units = append(units, &unit{x: x, obls: []*Obligation{o}})
+	}
+	for _, lc := range luas {
+		pp := ld.pkgs[lc.Pkg]
+		if pp == nil {
+			engineErrs = append(engineErrs, "lua "+lc.Const+": package "+lc.Pkg+" not loaded")
+			continue
+		}
+		x, obls, err := luaObligations(db, lc, pp.Types)
+		if err != nil {
+			engineErrs = append(engineErrs, err.Error())
+			continue
+		}
+		units = append(units, &unit{x: x, obls: obls})
+		trusted["Redis executes a script atomically; INCRBY/EXPIRE/GET/SETEX by their documented effect on one key; Lua numbers as reals"] = true
 	}
 	tGen := time.Since(t0) - tLoad
 
